@@ -301,6 +301,7 @@ func c02(r *core.Report) {
 	if cs := resolveChan(r); cs != nil && len(r.Failures) == 0 {
 		ruleCheckKeyShape(r, cs, "C02-PINNED-KEY")
 		ruleKeyWriters(r, cs, "C02-PINNED-KEY")
+		ruleRejectIsError(r, cs, "C02-PINNED-KEY")
 	}
 
 	// ---- C02-NO-PLAINTEXT
